@@ -73,10 +73,20 @@ def gen(t, tier):
                       'res': t.pick([[4000, 1500, 700, 300], [5000, 2000, 900], [3000, 1300, 500, 200]]), 'origin': t.pick(['ll', 'ul'])}
     n = t.randint(6, 20 if tier == 'quick' else 30)
     seen = []
+    # deep pyramid: ten levels, tiles next to the bundle / directory-group borders 127|128 and 255|256 of levels 8 and 9,
+    # cleaned up through a small coverage around the border (the tile walk then meets meta tiles that span two bundles)
+    deep = gk == 'global2' and b.get('directory_layout') != 'quadkey' and t.chance(0.2)
+    if deep:
+        sc['grid']['num_levels'] = 10
+        sc['meta_size'] = t.pick([[3, 3], [5, 5], [2, 2], [3, 2], [1, 1]])
     for _ in range(n):
         z = t.pick([0, 1, 2, 2, 3, 3, 4, 5])
         # fractional position inside the level, mapped to a tile index at run time (the grid size is the loader's business)
         c = [t.choice(1000), t.choice(1000), z]
+        if deep:
+            z = t.pick([8, 8, 8, 9, 7])
+            near = {8: [493, 497, 500, 504, 489, 508], 9: [247, 249, 250, 252, 499, 500], 7: [497, 500, 503]}[z]
+            c = [t.pick(near), t.pick(near), z]
         if c in seen:
             continue
         seen.append(c)
@@ -84,8 +94,11 @@ def gen(t, tier):
         if b.get('link') and t.chance(0.5):
             # a single-colour tile: stored as a link to a file shared by all tiles of that colour
             sc['tiles'][-1].append(t.pick([[255, 0, 0], [0, 0, 255]]))
-    nlev = {'global2': 4, 'sqrt2': 6}.get(gk) or len(sc['grid']['res'])
+    nlev = sc['grid'].get('num_levels') or len(sc['grid']['res'])
     levels = t.weighted([('all', 1), ('list', 3), ('range', 2), ('open', 2)])
+    if deep:
+        levels = 'deep'
+        sc['levels'] = t.pick([[8], [8, 9], [9], {'from': 8}, {'from': 7, 'to': 8}])
     if levels == 'list':
         sc['levels'] = sorted(set(t.choice(nlev) for _ in range(t.randint(1, 3))))
         if t.chance(0.2):
@@ -124,6 +137,12 @@ def gen(t, tier):
         # not a rectangle: a polygon (triangle / L-shape that reaches all four borders of the grid) or two separate
         # boxes in opposite corners - their bounding box spans the grid, their area does not
         sc['coverage'] = ['shape', t.pick(['triangle', 'lshape', 'corners', 'corners2']), t.choice(1000)]
+    if deep:
+        # always with a coverage (a full-extent cleanup of a 10-level pyramid takes the per-level fast path anyway)
+        lo = t.pick([0.47, 0.48, 0.485, 0.49, 0.495])
+        sc['coverage'] = [lo, t.pick([0.47, 0.48, 0.49]), lo + t.pick([0.01, 0.02, 0.03]), 0.5 + t.pick([0.004, 0.01, 0.02])]
+        if t.chance(0.3):
+            sc['coverage'] = [0.24, 0.24, 0.26, 0.26] if t.chance(0.5) else [0.49, 0.49, 0.51, 0.51]
     sc['tz'] = t.pick(C.TIMEZONES)
     sc['mtime_res'] = t.pick([None, None, None, 1.0, 2.0])      # granularity of the file system's time stamps
     return sc
